@@ -387,6 +387,7 @@ func init() {
 			return
 		}
 		expFoundations(c) // the final U/W division: Invert raises to p-2 (E-EXP)
+		readFullRule(c)   // key generation reads its seed completely
 		// the ladder's field primitives do not wrap a machine word (engine E-RANGE, stage A, portable back ends)
 		var rangeCfgs []string
 		for _, id := range c.Configs() {
